@@ -674,10 +674,10 @@ func tieClassifier(r *Rng, st *Stats, cf *CoqFile, n int) {
 		classItems = append(classItems, fmt.Sprintf("(%s, %s)", c, cb(got)))
 		st.Note("classifier-class", c, got)
 	}
+	tiePlain(r, st, cf, g, ctx, n)
 	for k, v := range g.ops {
 		st.Histogram["tree:"+k] += v
 	}
-	tiePlain(r, st, cf, g, ctx, n)
 	cf.AddCases("expr_cases", "node * bool", "check_expr", exprItems)
 	cf.AddCases("kpt_general_cases", "node * Z", "check_kpt", kptGeneral)
 	cf.AddCases("stmts_cases", "bool * bool * list node * bool", "check_stmts", stmtItems)
